@@ -24,6 +24,11 @@ Sum(s) == IF s = <<>> THEN 0 ELSE Head(s) + Sum(Tail(s))
 MaxOf(s) == CHOOSE m \in {s[i] : i \in 1..Len(s)} : \A i \in 1..Len(s) : m >= s[i]
 MinOf(s) == CHOOSE m \in {s[i] : i \in 1..Len(s)} : \A i \in 1..Len(s) : m <= s[i]
 
+\* k-th smallest value of a non-empty sequence; twice the median (kept integral)
+Kth(u, k) == CHOOSE x \in {u[i] : i \in 1..Len(u)} :
+                Cardinality({i \in 1..Len(u) : u[i] < x}) < k /\ Cardinality({i \in 1..Len(u) : u[i] <= x}) >= k
+Median2(u) == LET m == Len(u) IN IF m % 2 = 1 THEN 2 * Kth(u, (m + 1) \div 2) ELSE Kth(u, m \div 2) + Kth(u, m \div 2 + 1)
+
 \* the predicate menu: truth of p over the rows s of one group (comparison with a NULL aggregate is not true)
 Holds(p, s) ==
   LET u == Usable(s) IN
@@ -37,13 +42,19 @@ Holds(p, s) ==
     [] p = "max>=3|count>=3"   -> (u # <<>> /\ MaxOf(u) >= 3) \/ Len(s) >= 3          \* a column aggregate BEFORE count(*)
     [] p = "min<0&count>=2"    -> u # <<>> /\ MinOf(u) < 0 /\ Len(s) >= 2
     [] p = "sum>3|count>=3"    -> (u # <<>> /\ Sum(u) > 3) \/ Len(s) >= 3
+    [] p = "countv>=2"         -> Len(u) >= 2                                         \* COUNT(v): the rows in which v is present and not NULL
+    [] p = "countv>=3"         -> Len(u) >= 3
+    [] p = "median>=2"         -> u # <<>> /\ Median2(u) >= 4                          \* whatever order the values arrived in
+    [] p = "median<1|count>=4" -> (u # <<>> /\ Median2(u) < 2) \/ Len(s) >= 4
+    [] p = "band:sum"          -> u # <<>> /\ Sum(u) >= 3 /\ Sum(u) < 8                 \* one aggregate call twice in the predicate
+    [] p = "tier:sum,count"    -> (u # <<>> /\ Sum(u) >= 6) \/ (Len(s) >= 3 /\ u # <<>> /\ Sum(u) >= 2)
     [] p = "count>=3|max>=3&min<0" -> Len(s) >= 3 \/ (u # <<>> /\ MaxOf(u) >= 3 /\ MinOf(u) < 0)   \* AND binds tighter than OR
 
 Init == acc = [g \in Groups |-> <<>>] /\ out = <<>> /\ n = 0 /\ hist = <<>>
 \* predicates whose LEFT operand of OR is a column aggregate: while that aggregate is NULL the engine's evaluation of the whole
 \* predicate fails (recorded finding TriggerOrPoisonedByNullAggregate, pinned); the behaviours generated for replay (Emit) start
 \* every accumulation of a group with a non-NULL value
-LeftNullable == {"max>=3|count>=3", "sum>3|count>=3"}
+LeftNullable == {"max>=3|count>=3", "sum>3|count>=3", "median<1|count>=4", "tier:sum,count"}
 Row(g, v) ==
   /\ (Emit /\ Pred \in LeftNullable /\ acc[g] = <<>>) => v # Nul
   /\ n < MaxRows /\ n' = n + 1
